@@ -6,6 +6,7 @@
 import Stevia.Proofs.TreeState
 import Stevia.Proofs.HashSetState
 import Stevia.Proofs.ArraySetState
+import Stevia.Generated.Facts
 
 namespace Stevia.C10
 open Stevia
@@ -91,5 +92,20 @@ theorem hset_decode_recovers {γ : Type} [DecidableEq γ] (hash : γ → Nat) (v
 /-- Array set: the count fits the buffer and the values up to the count are strictly ascending. -/
 theorem aset_format {κ : Type} [LinOrd κ] {key : α → κ} {P : Nat} {s : ASet α} (h : s.Inv key P) :
     s.len ≤ s.slots ∧ AscK (s.view.map key) := ⟨h.len_le, h.sorted⟩
+
+/-- The layout facts the byte-level model depends on, as extracted from the sources on this run, are
+    the documented format: header word order, register order, `initialize` vectors, 1-based
+    `node!` indexing with 0 = none, 0-based `bucket_node!` indexing. -/
+theorem source_facts_are_documented_format :
+    Facts.tree32Fields = ["Root", "Size", "Capacity", "FreeListHead", "Sequence"] ∧
+    Facts.tree8Fields = ["Root", "Size", "Capacity", "FreeListHead", "Sequence"] ∧
+    Facts.tree32Registers = ["Left", "Right", "Height"] ∧ Facts.tree8Registers = ["Left", "Right", "Height"] ∧
+    Facts.tree32Init = ["SENTINEL", "0", "capacity", "1", "1", "0"] ∧
+    Facts.tree8Init = ["SENTINEL", "0", "capacity", "1", "1", "0", "0", "0"] ∧
+    Facts.tree32NodeBase = 1 ∧ Facts.tree8NodeBase = 1 ∧
+    Facts.hsetFields = ["Size", "Capacity", "FreeListHead", "Sequence"] ∧
+    Facts.hsetRegisters = ["Bucket", "Next"] ∧ Facts.hsetInit = ["0", "capacity", "1", "1"] ∧
+    Facts.hsetNodeBase = 1 ∧ Facts.hsetBucketBase = 0 := by
+  decide
 
 end Stevia.C10
